@@ -135,13 +135,15 @@ def main(args):
     # twins: the refactoring part of a refactoring-plus-defect seed with the defect repaired by hand (behaviour-preserving); the ones listed in
     # twins/LIMITS.json are algorithm redesigns that the structural rules report as undecided (documented limit, DESIGN.md 7.6)
     limits = json.load(open(os.path.join(tdir, 'LIMITS.json'))) if os.path.exists(os.path.join(tdir, 'LIMITS.json')) else {}
+    blimits = json.load(open(os.path.join(bdir, 'LIMITS.json'))) if os.path.exists(os.path.join(bdir, 'LIMITS.json')) else {}
     entries = [(bdir, fn, 'benign-' + fn[:-5]) for fn in (sorted(os.listdir(bdir)) if os.path.isdir(bdir) else []) if fn.endswith('.diff')]
     entries += [(tdir, fn, 'twin-' + fn[:-5]) for fn in (sorted(os.listdir(tdir)) if os.path.isdir(tdir) else []) if fn.endswith('.diff')]
     for bd, fn, name in entries:
         if only and name not in only and 'benign' not in only and name.split('-')[1] not in only:
             continue
-        if name.startswith('twin-') and fn[:-5] in limits and not os.environ.get('SELFTEST_LIMITS'):
-            tasks.append((lambda n, l: ((n, 'benign', 'LIMIT (undecided by design: ' + l + ')'), True), (name, limits[fn[:-5]])))
+        lim = limits.get(fn[:-5]) if name.startswith('twin-') else blimits.get(fn[:-5])
+        if lim and not os.environ.get('SELFTEST_LIMITS'):
+            tasks.append((lambda n, l: ((n, 'benign', 'LIMIT (undecided by design: ' + l + ')'), True), (name, lim)))
             continue
         tasks.append((_benign_entry, (bd, fn, name, have)))
     jobs = max(1, int(os.environ.get('SELFTEST_JOBS', '1') or 1))
